@@ -21,6 +21,7 @@ class Program:
             self.fns[f["path"]] = Fn(self, f)
         self.adts = {a["path"]: a for a in doc["adts"]}
         self.impls = doc["impls"]
+        self.consts = {c["path"]: c["value"] for c in doc.get("consts", [])}
         self.graph = doc.get("graph")
 
     def fn(self, path):
